@@ -38,6 +38,7 @@ func tfSchema() *schema.BodySchema {
 				"kw":   {IsOptional: true, Constraint: schema.Keyword{Keyword: "enabled"}},
 				"oneof": {IsOptional: true, Constraint: schema.OneOf{schema.Reference{OfScopeId: "variable"}, schema.LiteralType{Type: cty.String}}},
 				"strs": {IsOptional: true, Constraint: schema.LiteralType{Type: cty.List(cty.String)}},
+				"multi": {IsOptional: true, Constraint: schema.OneOf{schema.List{Elem: schema.Reference{OfScopeId: "variable"}}, schema.AnyExpression{OfType: cty.String}}},
 			},
 			Blocks: map[string]*schema.BlockSchema{
 				"opts": {Type: schema.BlockTypeObject, MaxItems: 1, Body: &schema.BodySchema{Attributes: map[string]*schema.AttributeSchema{
@@ -199,7 +200,11 @@ func (g *tfGen) resource(i int) {
 		d.Attrs = append(d.Attrs, attr)
 	}
 	if r.Intn(3) == 0 {
-		fmt.Fprintf(&g.sb, "  count = %s\n", pick(r, []string{"2", g.refText("count", "variable", true)}))
+		cv := "2"
+		if r.Intn(2) == 0 {
+			cv = g.refText("count", "variable", true)
+		}
+		fmt.Fprintf(&g.sb, "  count = %s\n", cv)
 	}
 	if r.Intn(2) == 0 {
 		w("str", fmt.Sprintf("%q", pick(r, []string{"x", "größe", "a b"})))
@@ -217,7 +222,11 @@ func (g *tfGen) resource(i int) {
 		w("any", g.anyExprWithRefs("any", 2))
 	}
 	if r.Intn(3) == 0 {
-		w("dyn", g.anyExprWithRefs("dyn", 1))
+		if r.Intn(3) == 0 {
+			w("dyn", `{ a = ["x", "y", "z"], b = { c = "d", e = "f" } }`)
+		} else {
+			w("dyn", g.anyExprWithRefs("dyn", 1))
+		}
 	}
 	if r.Intn(3) == 0 {
 		w("refs", "["+g.refText("refs", "variable", true)+", "+g.refText("refs", "variable", true)+"]")
@@ -232,10 +241,29 @@ func (g *tfGen) resource(i int) {
 		w("kw", "enabled")
 	}
 	if r.Intn(3) == 0 {
-		w("oneof", pick(r, []string{`"lit"`, g.refText("oneof", "variable", true)}))
+		ov := `"lit"`
+		if r.Intn(2) == 0 {
+			ov = g.refText("oneof", "variable", true)
+		}
+		w("oneof", ov)
 	}
 	if r.Intn(4) == 0 {
 		w("strs", `["a", "b"]`)
+	}
+	if r.Intn(3) == 0 {
+		// the same address written more than once in one value under a one-of constraint
+		a := g.refText("multi", "variable", true)
+		g.refs = append(g.refs, g.refs[len(g.refs)-1])
+		if r.Intn(2) == 0 {
+			w("multi", "["+a+", "+g.refText("multi", "variable", true)+", "+a+"]")
+		} else {
+			w("multi", `"${`+a+`}-${`+a+`}"`)
+		}
+	}
+	if r.Intn(4) == 0 {
+		a := g.refText("for_each", "", true)
+		g.refs = append(g.refs, g.refs[len(g.refs)-1])
+		fmt.Fprintf(&g.sb, "  for_each = %s == %s ? {} : {}\n", a, a)
 	}
 	if r.Intn(4) == 0 {
 		// a literal-only place: references written here must NOT become origins
@@ -306,7 +334,7 @@ func genTf(r *rand.Rand) *TfConfig {
 				continue
 			}
 			usedL[name] = true
-			val := pick(r, []string{`"s"`, "7", `["a", "b"]`, `{ k = "v", n = 1 }`})
+			val := pick(r, []string{`"s"`, "7", `["a", "b"]`, `{ k = "v", n = 1 }`, `{ k = ["a", "b", "c"], m = { q = "z", r = "y" } }`, `[["a", "b"], ["c"]]`})
 			if r.Intn(3) == 0 {
 				val = g.anyExprWithRefs("local:"+name, 1)
 			}
